@@ -37,9 +37,18 @@ Proof. exact shutdown_progress_pf. Qed.
 (* ... and only boundedly many such steps fit before LStopped, whatever producers, publishers and
    other Shutdown/Serve callers do meanwhile: under fair scheduling Shutdown returns. *)
 Theorem shutdown_bounded : forall tr s,
-  run init tr = Some s -> svc s = Stopping ->
+  run init tr = Some s -> svc s = Stopping -> shut s <> SCas ->
   exists B, forall tr' s', run s tr' = Some s' -> ~ In LStopped tr' -> (count_sys s tr' <= B)%nat.
 Proof. exact shutdown_bounded_pf. Qed.
+(* (between the CAS and close() setting the queue to nil the Shutdown thread's own step is enabled;
+   a bound on OTHER threads' steps does not exist there because the model allows spurious wake-ups
+   of waiting workers, which then wait again) *)
+Theorem close_nil_enabled : forall tr s, run init tr = Some s -> shut s = SCas -> step s LCloseNil <> None.
+Proof. exact close_nil_enabled_pf. Qed.
+Theorem shutdown_unbounded_before_close_refuted : exists tr s,
+  run init tr = Some s /\ svc s = Stopping /\
+  forall B, exists tr' s', run s tr' = Some s' /\ ~ In LStopped tr' /\ (B < count_sys s tr')%nat.
+Proof. exact shutdown_bounded_cex_pf. Qed.
 
 (* a stopped service can be served again (and all theorems above quantify over traces with any
    number of cycles) *)
